@@ -28,6 +28,11 @@ for d in sorted(glob.glob('/verif/seeded/*/')):
     rows.append((name, meta.get('property'), (meta.get('summary') or '')[:110].replace('|', '/'), (meta.get('needs_to_manifest') or '')[:120].replace('|', '/'), 'yes' if ok42 else '?', demo.replace('demo patched: ', ''),
                  ', '.join('%s:%s' % (c, 'CAUGHT' if r['detected'] else ('inconclusive' if r['exit'] == 2 else 'missed')) for c, r in sorted(last.items())) or 'not run yet',
                  ', '.join(meta.get('detected_by') or []) or '-'))
+ov = json.load(open('/verif/seeded/overrides.json')) if os.path.exists('/verif/seeded/overrides.json') else {}
+notes = ['', '## Notes on attribution', '']
+for sname, d in sorted(ov.items()):
+    for chk, txt in sorted(d.items()):
+        notes.append('* **%s / %s**: %s' % (sname, chk, txt))
 out = ['# Seeded property-breaking changes and what catches them', '',
        'Each change was produced by an independent sub-agent that saw only the text of one property and a scratch worktree; the lead re-verified it',
        '(patch applies, builds, 42 stable tests pass, demonstration fails with the patch and passes without) with `tools/seedcheck.sh`, which then ran the listed checks',
@@ -35,5 +40,5 @@ out = ['# Seeded property-breaking changes and what catches them', '',
        '| seed | property | change | needs to manifest | 42 tests | demo (patched fails / pristine exit) | last run of checks | ever caught by |', '|---|---|---|---|---|---|---|---|']
 for r in rows:
     out.append('| ' + ' | '.join(str(x) for x in r) + ' |')
-open('/verif/seeded/RESULTS.md', 'w').write('\n'.join(out) + '\n')
+open('/verif/seeded/RESULTS.md', 'w').write('\n'.join(out + notes) + '\n')
 print('\n'.join(out[-len(rows):]))
